@@ -141,6 +141,10 @@ func complement[T constraints.Integer](intv Interval[T], sub []Interval[T]) ([]I
 	}
 
 	intvs = append(intvs, intv)
+	if cnt == 0 {
+		// There is nothing to subtract, so nothing can be skipped either.
+		return intvs, 0
+	}
 	return intvs, cnt - 1
 }
 
